@@ -349,7 +349,9 @@ class TreeWorld:
             e = self.h[hname]
             if e.tainted or hname in self.changed or hname in self.created:
                 continue
-            self.check_value(hname, {"C13"}, "C13.bystander_or_input_changed", what=f"step {self.step_no} ({self.cur_op}) was not documented to change")
+            # an object that came out of load() must behave like any other object afterwards (C14: "every later operation ...")
+            self.check_value(hname, {"C13"} | ({"C14"} if e.meta.get("loaded") else set()), "C13.bystander_or_input_changed",
+                             what=f"step {self.step_no} ({self.cur_op}) was not documented to change" + (" the RELOADED object" if e.meta.get("loaded") else ""))
             if e.obj.root.parent is not None:
                 raise V({"C11", "C13"}, "C11.root_parent_left_behind", f"{hname}: root attached to a scratch parent after {self.cur_op}")
         return st
@@ -569,6 +571,31 @@ def op_scale(w, s):
     res = e.obj.scale(val)
     w.put(s["out"], "ttns", res, e.shadow * val, e.tid)
     w.check_value(s["out"], {"C11"}, "C11.scale.dense", what="scale")
+    return "done"
+
+
+@op("normalize")
+def op_normalize(w, s):
+    """b = a.copy(); b.normalize(kind): documented to overwrite b only"""
+    if not w.live_ok(s["a"]) or w.h[s["a"]].kind != "ttns" or not nonzero(w.h[s["a"]]):
+        return "skipped"
+    e = w.h[s["a"]]
+    kind = s["kind"]
+    res = e.obj.copy()
+    try:
+        res.normalize(kind)
+    except Exception as ex:
+        raise V({"C11", "C14"} if e.meta.get("loaded") else {"C11"}, "C11.normalize.raised", f"normalize({kind}) on a copy: {type(ex).__name__}: {ex}", sig=f"C11.normalize.raised:{type(ex).__name__}")
+    nrm = float(np.linalg.norm(e.shadow))
+    c = e.obj.coeff
+    if kind == "ttns_only":
+        ref = e.shadow / float(np.linalg.norm(w.tens(e)))
+    elif kind == "ttns_norm_to_coeff":
+        ref = e.shadow
+    else:
+        ref = e.shadow / nrm
+    w.put(s["out"], "ttns", res, ref, e.tid)
+    w.check_value(s["out"], {"C11"}, "C11.normalize.dense", what=f"normalize({kind})")
     return "done"
 
 
@@ -988,6 +1015,11 @@ def op_evolve(w, s):
     src.evolve_config = ec
     m = s.get("m")
     src.compress_config = CompressConfig(CompressCriteria.fixed, max_bonddim=int(m))
+    if s.get("per_bond"):
+        # a limit per bond (indexed like the node list): what each bond can hold at most, capped by m - still "sufficient" when m is
+        md = [int(min(float(m), x)) for x in src.bond_dims_exact] + [int(m)]
+        md[0] = max(md[0], 1)
+        src.compress_config.max_dims = np.array([max(1, v) for v in md], dtype=int)
     if s.get("prep") and len(src.node_list) > 1:
         # "another holder" brings the state to its minimal bond dimensions first (value preserving)
         src.canonicalise()
@@ -1012,6 +1044,13 @@ def op_evolve(w, s):
         w.stats.probes["ivp_budget_exceeded"] += 1
         return "skipped"
     except Exception as ex:
+        if method == "vmf" and type(ex).__name__ in ("ValueError", "FloatingPointError", "LinAlgError") and not _well_conditioned(w, e):
+            # overflow in the regularised inverse of a (nearly) singular overlap matrix (redundant bonds, e.g. after a direct sum):
+            # loud refusal of an ill-conditioned mean-field problem, as for the chain implementation
+            w.stats.probes["mean_field_illconditioned_refused"] += 1
+            w.changed.add(a)
+            w.check_value(a, {"C13"}, "C13.bystander_or_input_changed", what="input of a refused evolve call")
+            return "skipped"
         raise V({"C12"}, "C12.evolve.raised", f"TTNS.evolve({method}, dt={dt}): {type(ex).__name__}: {ex}", sig=f"C12.evolve.raised:{method}:{'imag' if imag else 'real'}:{type(ex).__name__}")
     if res is src:
         # remember what the input represented before the call: the shadow of `a` is still the old value, so the
@@ -1087,6 +1126,45 @@ def _well_conditioned(w, e):
         if k and sv[0] > 0 and sv[k - 1] / sv[0] < 1e-3:
             return False
     return True
+
+
+@op("expand")
+def op_expand(w, s):
+    """expand_bond_dimension_general(ttns, hint_mpo=ttno): returns a new state with filled bonds; the represented state moves by ~1e-10 only
+    and the input is left alone (bystander monitor)."""
+    from renormalizer.mps.mps import expand_bond_dimension_general
+    a, hh = s["a"], s["h"]
+    if not w.live_ok(a, hh):
+        return "skipped"
+    e, eh = w.h[a], w.h[hh]
+    if e.kind != "ttns" or eh.kind != "ttno" or eh.tid != e.tid or not eh.meta.get("hermitian") or not nonzero(e) or len(e.obj.node_list) < 2:
+        return "skipped"
+    if float(np.linalg.norm(eh.shadow @ e.shadow)) < 1e-8 * float(np.linalg.norm(eh.shadow, 2) * np.linalg.norm(e.shadow)):
+        return "skipped"
+    src = e.obj
+    if not src.is_canonical():
+        return "skipped"
+    src.compress_config = CompressConfig(CompressCriteria.fixed, max_bonddim=int(s["m"]))
+    bonds_in = list(src.bond_dims)
+    try:
+        res = expand_bond_dimension_general(src, hint_mpo=eh.obj)
+    except Exception as ex:
+        w.stats.probes["tree_expand_failed:" + type(ex).__name__] += 1
+        w.changed.add(a)
+        w.check_value(a, {"C13"}, "C13.bystander_or_input_changed", what="input of a refused expand call")
+        return "skipped"
+    if list(src.bond_dims) != bonds_in:
+        raise V({"C13", "C12"}, "C13.tree.expand.input_truncated", f"expand_bond_dimension_general changed the bonds of its input {bonds_in} -> {list(src.bond_dims)}")
+    tmp = Entry("ttns", res, np.zeros(1), e.tid)
+    got = w.dense_of(tmp)
+    w.put(s["out"], "ttns", res, got, e.tid, {"expanded": True})
+    err = float(np.linalg.norm(got - e.shadow))
+    sc = float(np.linalg.norm(e.shadow))
+    w.stats.ratio("C12.tree.expand", err, 1e-8 * sc)
+    if err > 1e-8 * sc:
+        raise V({"C12", "C13"}, "C12.tree.expand.moved_state", f"expand_bond_dimension_general moved the state by {err:.3e} (norm {sc:.3e})")
+    w.stats.probes["tree_expand"] += 1
+    return "done"
 
 
 @op("optimize")
@@ -1263,7 +1341,7 @@ def op_dump_load(w, s):
             raise V({"C14"}, "C14.tree.roundtrip", "TTNS dump/load changed tensors or quantum numbers")
     if complex(res.coeff) != complex(e.obj.coeff):
         raise V({"C14"}, "C14.tree.roundtrip", f"TTNS dump/load changed the prefactor {e.obj.coeff!r} -> {res.coeff!r}")
-    w.put(s["out"], "ttns", res, e.shadow.copy(), e.tid)
+    w.put(s["out"], "ttns", res, e.shadow.copy(), e.tid, {"loaded": True})
     w.check_value(s["out"], {"C14"}, "C14.tree.roundtrip.value")
     # every later operation gives identical results on the reloaded object
     if not nonzero(e):
@@ -1445,6 +1523,14 @@ def p_scale(w, rnd):
     return {"op": "scale", "a": rnd.choice(hs), "val": v, "inplace": rnd.random() < 0.4, "out": w.new_handle()}
 
 
+@prop("normalize")
+def p_normalize(w, rnd):
+    hs = w.handles("ttns", pred=nonzero)
+    if not hs:
+        return None
+    return {"op": "normalize", "a": rnd.choice(hs), "kind": rnd.choice(["ttns_only", "ttns_norm_to_coeff", "ttns_and_coeff"]), "out": w.new_handle()}
+
+
 @prop("unary")
 def p_unary(w, rnd):
     hs = w.handles("ttns", pred=nonzero)
@@ -1543,8 +1629,22 @@ def p_evolve(w, rnd):
         mx = int(max(e.obj.bond_dims_exact[1:] + [1]))
         s = {"op": "evolve", "a": a, "h": hh, "method": method, "dt": [0.0, -tau] if imag else [tau * rnd.choice([1, 1, -1]), 0.0],
              "m": min(mx, 64) if rnd.random() < 0.8 else rnd.randint(1, max(1, min(mx, 8))), "normalize": rnd.random() < 0.7, "prep": rnd.random() < 0.6,
+             "per_bond": method in ("ps2", "tdrk4") and rnd.random() < 0.4,
              "out": w.new_handle()}
         return s
+    return None
+
+
+@prop("expand")
+def p_expand(w, rnd):
+    hams = w.handles("ttno", pred=lambda e: e.meta.get("hermitian"))
+    rnd.shuffle(hams)
+    for hh in hams:
+        st = w.handles("ttns", w.h[hh].tid, pred=lambda e: nonzero(e) and len(e.obj.node_list) >= 2)
+        if st:
+            a = rnd.choice(st)
+            mx = int(min(max(w.h[a].obj.bond_dims_exact[1:] + [1]), 32))
+            return {"op": "expand", "a": a, "h": hh, "m": rnd.randint(max(2, max(w.h[a].obj.bond_dims)), max(2, mx, max(w.h[a].obj.bond_dims))), "out": w.new_handle()}
     return None
 
 
